@@ -6,10 +6,12 @@ verus! {
 //@include prelude/bincode.rs
 //@include prelude/opaque_errors.rs
 //@include prelude/hmap_opaque.rs
+//@include prelude/alloc.rs
 
 //@map std::io::Error => IoError
 //@map u64::from_be_bytes => u64_from_be_bytes
 //@map HashMap => HMap
+//@map Vec::with_capacity => vec_with_capacity
 use core::mem::size_of;
 
 //@type standard/src/errors.rs :: CryptoError
@@ -203,6 +205,130 @@ pub open spec fn enc_batch(v: Seq<Bytes>) -> Seq<u8> { be64_bytes(v.len() as u64
         }
 //@end
 
+// what a batch denotes, peeled from the front the way a reader sees it (None: malformed)
+pub open spec fn dec_items(s: Seq<u8>, n: nat) -> Option<Seq<Seq<u8>>>
+    decreases n
+{
+    if n == 0 { Some(Seq::empty()) }
+    else if s.len() < 8 { None }
+    else {
+        let l = be64(s.subrange(0, 8));
+        if l > s.len() - 8 { None } else {
+            match dec_items(s.subrange(8 + l, s.len() as int), (n - 1) as nat) {
+                Some(t) => Some(seq![s.subrange(8, 8 + l)] + t),
+                None => None,
+            }
+        }
+    }
+}
+pub open spec fn dec_batch(s: Seq<u8>) -> Option<Seq<Seq<u8>>> {
+    if s.len() < 8 { None } else {
+        let n = be64(s.subrange(0, 8));
+        if n > (s.len() - 8) / 8 { None } else { dec_items(s.subrange(8, s.len() as int), n as nat) }
+    }
+}
+pub open spec fn views(v: Seq<Bytes>) -> Seq<Seq<u8>> { Seq::new(v.len(), |i: int| v[i]@) }
+
+//@rename protocol/src/utils.rs :: LEN_MARKER_SIZE => BATCH_LEN_MARKER_SIZE
+//@const protocol/src/utils.rs :: LEN_MARKER_SIZE [exec=BATCH_LEN_MARKER_SIZE == 8]
+//@fn protocol/src/utils.rs :: - :: decode_message_batch [props=C05 C06] [noisolation]
+    requires
+        alloc_budget() == bytes@.len(),                                             // ghost: the only memory a decoder may ask for
+    ensures
+        dec_batch(bytes@) is None ==> r is Err,                                     // [C06.malformed_batch_is_error]
+        dec_batch(bytes@) matches Some(v) ==> r is Ok && views(r->Ok_0@) =~= v,     // [C05.unbatch]
+//@loop 1 iter=it
+        invariant
+            messages@.len() == it.index@,
+            num_of_messages <= (bytes0.len() - 8) / 8,
+            it.snapshot.start == 0, it.snapshot.end == num_of_messages,
+            dec_batch(bytes0) == (match dec_items(bytes@, (num_of_messages - it.index@) as nat) { Some(t) => Some(views(messages@) + t), None => None }),
+//@hint before "if bytes.len() < BATCH_LEN_MARKER_SIZE" #1
+    let ghost bytes0 = bytes@;
+//@hint before "for _ in"
+    proof { assert(views(messages@) =~= Seq::<Seq<u8>>::empty()); assert(views(messages@) + dec_items(bytes@, num_of_messages as nat)->Some_0 =~= dec_items(bytes@, num_of_messages as nat)->Some_0); }
+//@hint before "if bytes.len() < BATCH_LEN_MARKER_SIZE" #2
+        let ghost prev = views(messages@);
+        let ghost sb = bytes@;
+        let ghost rem = (num_of_messages - it.index@) as nat;
+        proof { assert(rem > 0); }
+//@hint before "return Err(ProtocolError::MalformedBatch)" #3
+            proof { assert(dec_items(sb, rem) is None); }
+//@hint before "return Err(ProtocolError::MalformedBatch)" #4
+            proof { assert(message_len == be64(sb.subrange(0, 8))); assert(dec_items(sb, rem) is None); }
+//@hint after "messages.push"
+        proof {
+            let l = be64(sb.subrange(0, 8));
+            assert(message_len == l);
+            assert(message_bytes@ =~= sb.subrange(8, 8 + l));
+            assert(bytes@ =~= sb.subrange(8 + l, sb.len() as int));
+            assert(views(messages@) =~= prev.push(message_bytes@));
+            let t = dec_items(bytes@, (rem - 1) as nat);
+            if t is Some { assert(prev + (seq![message_bytes@] + t->Some_0) =~= views(messages@) + t->Some_0); }
+        }
+//@hint before "Ok(messages)"
+    proof { assert(views(messages@) + Seq::<Seq<u8>>::empty() =~= views(messages@)); }
+//@end
+
+// "Unbatching the encoding of a list of messages returns the same messages in the same order" (C05), as a lemma over
+// the two contracts above: encode ensures r@ == enc_batch(v); decode ensures Ok(views == dec_batch(r@)).
+pub proof fn lemma_enc_items_front(v: Seq<Bytes>)
+    requires v.len() > 0
+    ensures enc_items(v) =~= be64_bytes(v[0]@.len() as u64) + v[0]@ + enc_items(v.subrange(1, v.len() as int))
+    decreases v.len()
+{
+    if v.len() == 1 {
+        assert(v.drop_last() =~= Seq::<Bytes>::empty());
+        assert(v.subrange(1, 1) =~= Seq::<Bytes>::empty());
+        assert(enc_items(Seq::<Bytes>::empty()) =~= Seq::<u8>::empty());
+    } else {
+        let d = v.drop_last();
+        lemma_enc_items_front(d);
+        let t = v.subrange(1, v.len() as int);
+        assert(d.subrange(1, d.len() as int) =~= t.drop_last());
+        assert(d[0] == v[0]);
+        assert(t.last() == v.last());
+    }
+}
+pub proof fn lemma_enc_items_len(v: Seq<Bytes>)
+    ensures enc_items(v).len() >= 8 * v.len()
+    decreases v.len()
+{
+    if v.len() > 0 { lemma_enc_items_len(v.drop_last()); }
+}
+pub proof fn lemma_dec_enc_items(v: Seq<Bytes>)
+    requires forall|i: int| 0 <= i < v.len() ==> (#[trigger] v[i])@.len() <= u64::MAX
+    ensures dec_items(enc_items(v), v.len()) == Some(views(v))
+    decreases v.len()
+{
+    if v.len() == 0 {
+        assert(views(v) =~= Seq::<Seq<u8>>::empty());
+    } else {
+        lemma_enc_items_front(v);
+        let s = enc_items(v);
+        let l = v[0]@.len() as u64;
+        let tail = v.subrange(1, v.len() as int);
+        lemma_be64_roundtrip(l);
+        assert(s.subrange(0, 8) =~= be64_bytes(l));
+        assert(s.subrange(8, 8 + l) =~= v[0]@);
+        assert(s.subrange(8 + l, s.len() as int) =~= enc_items(tail));
+        assert forall|i: int| 0 <= i < tail.len() implies (#[trigger] tail[i])@.len() <= u64::MAX by { assert(tail[i] == v[i + 1]); }
+        lemma_dec_enc_items(tail);
+        assert(seq![v[0]@] + views(tail) =~= views(v));
+    }
+}
+pub proof fn lemma_unbatch_roundtrip(v: Seq<Bytes>)
+    requires v.len() <= u64::MAX, forall|i: int| 0 <= i < v.len() ==> (#[trigger] v[i])@.len() <= u64::MAX
+    ensures dec_batch(enc_batch(v)) == Some(views(v))
+{
+    let s = enc_batch(v);
+    lemma_be64_roundtrip(v.len() as u64);
+    lemma_enc_items_len(v);
+    assert(s.subrange(0, 8) =~= be64_bytes(v.len() as u64));
+    assert(s.subrange(8, s.len() as int) =~= enc_items(v));
+    lemma_dec_enc_items(v);
+}
+
 // ------------------------------------------------------------------------------------------
 // lemmas over the contracts (C05): round trip, exact consumption, chunking independence
 // ------------------------------------------------------------------------------------------
@@ -268,20 +394,27 @@ pub open spec fn frames(s: Seq<u8>, fuel: nat) -> (Seq<Option<Frame>>, Seq<u8>)
         }
     }
 }
+pub open spec fn somes(fs: Seq<Frame>) -> Seq<Option<Frame>> { Seq::new(fs.len(), |i: int| Some(fs[i])) }
 pub proof fn lemma_stream_of_frames(fs: Seq<Frame>, rest: Seq<u8>)
     requires forall|i: int| 0 <= i < fs.len() ==> body(#[trigger] fs[i]).len() <= MIB()
-    ensures frames(wire_all(fs) + rest, fs.len()).0 =~= fs.map_values(|f: Frame| Some(f)), frames(wire_all(fs) + rest, fs.len()).1 =~= rest
+    ensures frames(wire_all(fs) + rest, fs.len()) == (somes(fs), rest)
     decreases fs.len()
 {
     if fs.len() == 0 {
         assert(wire_all(fs) + rest =~= rest);
+        assert(somes(fs) =~= Seq::<Option<Frame>>::empty());
     } else {
         let f = fs[0];
         let tail = fs.subrange(1, fs.len() as int);
-        assert(wire_all(fs) + rest =~= wire(f) + (wire_all(tail) + rest));
-        lemma_roundtrip(f, wire_all(tail) + rest);
+        let s = wire_all(fs) + rest;
+        let mid = wire_all(tail) + rest;
+        assert(s =~= wire(f) + mid);
+        lemma_roundtrip(f, mid);
+        assert(step(s) == Step::Got(Some(f), mid));
+        assert forall|i: int| 0 <= i < tail.len() implies body(#[trigger] tail[i]).len() <= MIB() by { assert(tail[i] == fs[i + 1]); }
         lemma_stream_of_frames(tail, rest);
-        assert(seq![Some(f)] + tail.map_values(|f: Frame| Some(f)) =~= fs.map_values(|f: Frame| Some(f)));
+        assert(frames(mid, tail.len()) == (somes(tail), rest));
+        assert(seq![Some(f)] + somes(tail) =~= somes(fs));
     }
 }
 pub open spec fn wire_all(fs: Seq<Frame>) -> Seq<u8>
